@@ -72,6 +72,9 @@ impl ValueStack {
     /// Returns Nil if the stack is empty
     #[inline]
     pub fn pop(&mut self) -> Value {
+        if self.count == 0 {
+            return Value::Nil;
+        }
         let count = self.count.saturating_sub(1);
         let value = self.data[count];
         self.count = count;
